@@ -28,7 +28,7 @@ impl Adapter for CacheAd {
             return json!({"max": 2, "ttl": 2, "pol": *rng.pick(&["lfu", "lfu", "lru", "fifo"]), "shared": 0, "nkeys": 3, "ctor": 0, "dir": 1});
         }
         let nk = if size == Size::Quick { 3 + rng.below(4) } else { 4 + rng.below(9) };
-        json!({"max": 1 + rng.below(nk.min(6)), "ttl": *rng.pick(&[-1i64, -1, 2, 5, 9]), "pol": *rng.pick(&["lru", "lfu", "fifo"]), "shared": rng.below(2), "nkeys": nk, "ctor": rng.below(2)})
+        json!({"max": 1 + rng.below(nk.min(6)), "ttl": *rng.pick(&[-1i64, -1, 2, 5, 9, 2, 5, 9, 1000000]), "pol": *rng.pick(&["lru", "lfu", "fifo"]), "shared": rng.below(2), "nkeys": nk, "ctor": rng.below(2)})
     }
     fn build(&mut self, cfg: &Value, sim: &mut Sim) {
         let max = cfg["max"].as_u64().unwrap() as usize;
@@ -49,7 +49,7 @@ impl Adapter for CacheAd {
             let mut b = CacheLayer::<Req, CKey>::builder().max_size(max).eviction_policy(pol).key_extractor(|r: &Req| CKey(r.key))
                 .on_hit(move || { h3[0].fetch_add(1, Ordering::SeqCst); }).on_miss(move || { m3[1].fetch_add(1, Ordering::SeqCst); }).on_eviction(move || { e3[2].fetch_add(1, Ordering::SeqCst); });
             if ttl >= 0 {
-                b = b.ttl(Duration::from_millis(ttl as u64));
+                b = b.ttl(if ttl >= 1000000 { Duration::MAX } else { Duration::from_millis(ttl as u64) });
             }
             let layer = b.build().shared::<Resp>();
             self.svcs = vec![layer.layer(inner.clone()), layer.layer(inner)];
@@ -57,7 +57,7 @@ impl Adapter for CacheAd {
             let mut b = SharedCacheLayer::<Req, CKey, Resp>::builder().max_size(max).eviction_policy(pol).key_extractor(|r: &Req| CKey(r.key))
                 .on_hit(move || { h[0].fetch_add(1, Ordering::SeqCst); }).on_miss(move || { m[1].fetch_add(1, Ordering::SeqCst); }).on_eviction(move || { e[2].fetch_add(1, Ordering::SeqCst); });
             if ttl >= 0 {
-                b = b.ttl(Duration::from_millis(ttl as u64));
+                b = b.ttl(if ttl >= 1000000 { Duration::MAX } else { Duration::from_millis(ttl as u64) });
             }
             let layer = b.build();
             self.svcs = vec![layer.layer(inner.clone()), layer.layer(inner)];
@@ -67,7 +67,7 @@ impl Adapter for CacheAd {
             let mut b = CacheLayer::<Req, CKey>::builder().max_size(max).eviction_policy(pol).key_extractor(|r: &Req| CKey(r.key))
                 .on_hit(move || { h2[0].fetch_add(1, Ordering::SeqCst); }).on_miss(move || { m2[1].fetch_add(1, Ordering::SeqCst); }).on_eviction(move || { e2[2].fetch_add(1, Ordering::SeqCst); });
             if ttl >= 0 {
-                b = b.ttl(Duration::from_millis(ttl as u64));
+                b = b.ttl(if ttl >= 1000000 { Duration::MAX } else { Duration::from_millis(ttl as u64) });
             }
             let layer = b.build();
             self.svcs = vec![layer.layer(inner.clone()), layer.layer(inner)];
